@@ -124,6 +124,42 @@ def witness_case(meas, t, n, k, what, rng, side='L'):
 JOIN_OF = {'JACCARD': 'jaccard_join', 'COSINE': 'cosine_join', 'DICE': 'dice_join', 'OVERLAP': 'overlap_join'}
 
 
+def ed_witness_cases():
+    """Worst-case pairs for the edit-distance prefix / position / size arithmetic: a string of distinct
+    characters and the same string with tau substitutions placed q or more apart, so that exactly q*tau q-grams of
+    each string are unshared and - being the rarest - sort first: the pair is found only with a prefix of
+    q*tau + 1 tokens.  All (length, q, tau) combinations are run one after the other in the same process."""
+    letters = 'abcdefghijklmnop'
+    cases = []
+    for L in range(3, 14):
+        for q in (1, 2, 3):
+            for tau in (1, 2):
+                for pad in (0, 1):
+                    x = letters[:L]
+                    pos = [q - 1 + j * (q + 1) for j in range(tau)]
+                    if pad == 0 and (pos[-1] + q > L or L - q + 1 < q * tau + 1):
+                        continue
+                    if pos[-1] >= L:
+                        continue
+                    y = list(x)
+                    for j, p_ in enumerate(pos):
+                        y[p_] = 'XY'[j]
+                    y = ''.join(y)
+                    for what in ('edit_distance_join', 'PREFIX', 'POSITION', 'SUFFIX', 'SIZE'):
+                        for side in ('L', 'R'):
+                            case = {'tok': {'kind': 'qg', 'q': q, 'pad': pad, 'rs': 0}, 'meas': 'EDIT_DISTANCE',
+                                    't': [tau, 1], 'ae': 1, 'am': 0, 'lout': None, 'rout': None, 'n_jobs': 1, 'op': '<=',
+                                    'L': {'cols': ['id', 's'], 'rows': [[1, x if side == 'L' else y]], 'index': None, 'strcols': ['s']},
+                                    'R': {'cols': ['id', 's'], 'rows': [[11, y if side == 'L' else x]], 'index': None, 'strcols': ['s']}}
+                            if what == 'edit_distance_join':
+                                case.update(kind='join', api=what, filt='NONE', sc=1)
+                            else:
+                                case.update(kind='ftab', api=what + '.filter_tables', filt=what, sc=0)
+                            case['_witness'] = ['ED', L, q, tau, pad, side]
+                            cases.append(case)
+    return cases
+
+
 def run_api_case(item):
     tid, case = item
     obs, result, events, tables = record.execute(case)
@@ -176,9 +212,14 @@ def run(tier, seed):
                     c = witness_case(meas, t, a, k, what, rng, side)
                     c['_escalated'] = why
                     api_cases.append(c)
+    # edit distance: run in ONE process, in a fixed order (q = 1, 2, 3 with equal thresholds and q-gram counts)
+    ed_items = [(1000000 + i, c) for i, c in enumerate(ed_witness_cases())]
     items = [(i + 1, c) for i, c in enumerate(api_cases)]
-    runner.log('E1: %d public-API calls on witness tables (%d escalations)' % (len(items), len(esc)))
+    runner.log('E1: %d public-API calls on witness tables (%d escalations) + %d edit-distance witnesses' % (
+        len(items), len(esc), len(ed_items)))
     arecs = runner.pmap(run_api_case, items)
+    arecs += runner.pmap(run_api_case, ed_items, nproc=1)
+    items = items + ed_items
     averd, astats = runner.validate(arecs, 'TraceAPI', 'e1a', batch=600)
     by_tid = dict(items)
     for tid, v in averd.items():
